@@ -10,8 +10,9 @@ TRUSTED = [
     "Coq 8.16.1 kernel + vm_compute (no native_compute)",
     "axioms: none (Print Assumptions: Closed under the global context for every C16 theorem)",
     "hand model C16/Casm.v of cairo-lang-casm assemble/encode/op_size and C16/Vm.v of cairo-vm 3.2.0 "
-    "decode_instruction + one Stone step (Blake2s/QM31 step arithmetic not modelled), tied by the "
-    "correspondence run only",
+    "decode_instruction + one Stone step (Blake2s/QM31 step arithmetic not modelled) + C16/Run.v write-once "
+    "memory insertion and the fetch/decode/execute/insert loop (vm_trace), tied by the correspondence run "
+    "only (one-step leg and whole-run leg: real cairo-vm stepped up to 14 times over loaded programs)",
     "harness/h16 (case generator, Coq term printer, impl-level oracle), lib/vlib.py",
 ]
 
@@ -43,7 +44,7 @@ def run(ctx):
 
     chk = None
     if ctx.thorough and ok_make:
-        chk = vlib.coqchk_lib(ctx, "C16", ["Roundtrip", "Step", "Corr"])
+        chk = vlib.coqchk_lib(ctx, "C16", ["Roundtrip", "Step", "Run", "Corr"])
         ctx.cov["coqchk"] = {"axioms": chk["axioms"], "ok": chk["ok"]}
         if not chk["ok"]:
             ctx.violation("coqchk does not accept the compiled C16 library or reports axioms",
@@ -73,7 +74,7 @@ def run(ctx):
                        "hygiene": (pr or {}).get("hygiene"), "unknown_axioms": (pr or {}).get("unknown_axioms")},
                       found_input=False)
 
-    n_cases = sum(summary.get(k, 0) for k in ("enc_cases", "dec_cases", "step_cases"))
+    n_cases = sum(summary.get(k, 0) for k in ("enc_cases", "dec_cases", "step_cases", "run_cases"))
     samples = []
     sp = os.path.join(cases, "samples.txt")
     if os.path.exists(sp):
@@ -81,20 +82,22 @@ def run(ctx):
     ctx.cov.update({
         "obligations": pr["obligations"] if pr else 0,
         "discharged": pr["discharged"] if pr else 0,
-        "property_theorems": ["C16_roundtrip", "C16_assemble_total", "C16_qm31_rejected", "C16_step_sound", "C16_example",
-                              "C16_step_example"],
+        "property_theorems": ["C16_roundtrip", "C16_assemble_total", "C16_qm31_rejected", "C16_step_sound", "C16_run_sound",
+                              "C16_example", "C16_step_example", "C16_run_example"],
         "print_assumptions": (pr or {}).get("axioms", []),
         "evaluations": n_cases,
         "distinct_nontrivial": summary.get("enc_cases", 0) - summary.get("enc_rejected_by_impl", 0)
         + summary.get("dec_ok", 0) + summary.get("step_ok", 0),
         "rule": "cases: every instruction shape (8 bodies x operand kinds x registers x inc_ap) x boundary/"
                 "random i16 offsets x boundary/random immediates; decoder on encoded words, single-bit flips and "
-                "random u128; one real cairo-vm step from seeded states (3/4 arranged to be executable). "
+                "random u128; one real cairo-vm step from seeded states (3/4 arranged to be executable); whole runs "
+                "(up to 14 real VM steps, run_steps_histogram = how many steps the VM accepted) of generated 3-8 "
+                "instruction programs with loops, calls, rets, deductions, conflicting inserts and off-boundary jumps. "
                 "distinct_nontrivial = cases the implementation accepted (assembled / decoded / stepped "
                 "successfully), counted by the harness; generated cases are distinct by construction of the "
                 "enumeration except for random collisions.",
         "input_distribution": summary,
-        "traces_validated_against_impl": summary.get("step_cases", 0),
+        "traces_validated_against_impl": summary.get("step_cases", 0) + summary.get("run_cases", 0),
         "correspondence_disagreements": len(corr_bad),
         "oracle_failures": len(oracle_bad),
         "casm_macro_spellings_checked": summary.get("macro_spellings", 0),
@@ -106,9 +109,12 @@ def run(ctx):
         "|encode| = op_size = VM instruction size, immediate = 2nd word, QM31 side condition is exact "
         "(C16_roundtrip, C16_qm31_rejected); one step of the modelled VM on those flags, from any machine state "
         "(unknown cells, relocatables), does what the instruction denotes when read off its syntax (C16_step_sound, "
-        "Stone extension; premise: the defining equation of the field inverse used for product deductions). "
+        "Stone extension; premise: the defining equation of the field inverse used for product deductions); "
+        "C16_run_sound lifts this to executions of any length over the write-once memory: every step that starts at "
+        "a loaded assembled instruction does what it denotes, read in the final memory. "
         "Exploration (not proof): the hand model is compared with cairo-lang-casm and cairo-vm on the same "
-        "inputs (assemble/encode/op_size, decode_instruction incl. error cases, one VM step incl. deduction), "
+        "inputs (assemble/encode/op_size, decode_instruction incl. error cases, one VM step incl. deduction, whole runs of loaded programs: same "
+        "states after every step, same final memory, same first failing step), "
         "and impl-level oracles check that each real VM step does what the CASM syntax denotes, that a Blake2s word "
         "decodes to the byte_count/state/message cells it names, and that the casm! macro (inline.rs) produces the "
         "instruction its text spells (49 spellings: every cell_ref/res!/control-flow arm).",
